@@ -29,27 +29,8 @@ def pyvc_fmt(fmt, args):
     tup = args if isinstance(args, tuple) else (args,)
     if not _any_sym(tup) or isinstance(args, dict):
         return fmt % args
-    conv = []
-    for a in tup:
-        conv.append(_Tok(a) if _is_sym(a) else a)
-    return fmt % tuple(conv)
-
-
-class _Tok:
-    """renders as an uninterpreted token under every %-conversion"""
-
-    def __init__(self, v):
-        self.v = v
-
-    def _t(self):
-        return str(self.v)
-
-    __str__ = __repr__ = _t
-
-    def __int__(self):
-        raise Unsupported("numeric %-conversion of a symbolic value")
-
-    __index__ = __float__ = __int__
+    from . import text
+    return text.fmt_percent(fmt, args)
 
 
 # ---- builtins
@@ -186,7 +167,8 @@ def s_bool(x=False):
 
 def s_hex(x):
     if _b.isinstance(x, SymInt):
-        return "⟦hex %s⟧" % core.term_token(x.t)
+        from . import text
+        return text.tok("#x", x)
     return _b.hex(x)
 
 
@@ -202,6 +184,22 @@ def s_chr(x):
         from .strings import SymStr
         return SymStr.from_code(x)
     return _b.chr(x)
+
+
+class _FloatMeta(type):
+    def __instancecheck__(cls, x):
+        return _b.isinstance(x, (_b.float, SymFloat))
+
+
+class s_float(metaclass=_FloatMeta):
+    def __new__(cls, x=0.0):
+        if _b.isinstance(x, SymFloat):
+            return x
+        if _b.isinstance(x, SymInt):
+            return SymFloat.from_int(x)
+        return _b.float(x)
+
+    fromhex = _b.float.fromhex
 
 
 def s_range(*a):
@@ -290,6 +288,6 @@ def install_post(mod):
             d[nm] = getattr(sm, nm)
     for nm, f in (("len", s_len), ("int", s_int), ("isinstance", s_isinstance), ("max", s_max),
                   ("min", s_min), ("bytes", s_bytes), ("bytearray", s_bytearray), ("str", s_str),
-                  ("bool", s_bool), ("hex", s_hex), ("ord", s_ord), ("chr", s_chr), ("sum", s_sum), ("range", s_range)):
+                  ("bool", s_bool), ("hex", s_hex), ("ord", s_ord), ("chr", s_chr), ("sum", s_sum), ("range", s_range), ("float", s_float)):
         if nm not in d:
             d[nm] = f
